@@ -228,3 +228,149 @@ func GenFinaliseCase(r *vhlib.Rand, ru *Runner, rate int) {
 	ru.Exec("rdx settle")
 	ru.Close()
 }
+
+// GenBystanderCase: a torrent with a web seed configured and peers of varying availability
+// (also none); consumers hold priorities and wait; then events that are none of the
+// consumers' business — configuration changes of every field in both directions,
+// availability going up and down to zero, unchoke / interested notifications, announces,
+// getters — each followed by the balance and wake-up oracles: the consumers' priorities and
+// channels must be exactly what they were, and a later verification must still wake them.
+func GenBystanderCase(r *vhlib.Rand, ru *Runner, rate int) {
+	ps := r.PickInt(16384, 32768)
+	n := 4 + r.Intn(3)
+	total := int64(n*ps - r.PickInt(0, 1, 9000))
+	ru.Exec(fmt.Sprintf("rd new %d %d %d %d s:%d+w", ps, total, r.Intn(1000), rate, total))
+	if ru.S == nil {
+		return
+	}
+	n = ru.S.N
+	// the configuration the torrent starts from, then consumers
+	web := r.Intn(2)
+	ru.Exec(fmt.Sprintf("rdx bys conf %d %d %d", r.Intn(3), r.Intn(2), web))
+	ru.Exec("rdx complete 0")
+	for i := 1; i < n; i++ {
+		if r.Chance(40) {
+			ru.Exec(fmt.Sprintf("rdx bys phave %d 1", i)) // some pieces have a peer, some none
+		}
+	}
+	nr := 1 + r.Intn(2)
+	for rid := 0; rid < nr; rid++ {
+		off := int64(r.Intn(n)) * int64(ps)
+		ru.Exec(fmt.Sprintf("rdx open %d %d %d", rid, off, total-off))
+		ru.Exec(fmt.Sprintf("rdx read %d %d", rid, r.PickInt(100, ps)))
+	}
+	type hp struct{ i, p int }
+	var held []hp
+	for k := 0; k < 2+r.Intn(3); k++ {
+		h := hp{1 + r.Intn(n-1), []int{-1, 0, 1, 5}[r.Intn(4)]}
+		ru.Exec(fmt.Sprintf("rdx treq %d %d 1 %d", h.i, h.p, r.Intn(2)))
+		if !ru.IsComplete(h.i) {
+			held = append(held, h)
+		}
+	}
+	ru.Exec("rdx settle")
+	for step := 0; step < 8+r.Intn(8) && !Aborted.Load(); step++ {
+		switch x := r.Intn(100); {
+		case x < 35:
+			if r.Chance(50) {
+				web = 1 - web // web seeds on <-> off
+			}
+			ru.Exec(fmt.Sprintf("rdx bys conf %d %d %d", r.Intn(3), r.Intn(2), web))
+		case x < 55:
+			ru.Exec(fmt.Sprintf("rdx bys phave %d %d", 1+r.Intn(n-1), r.Intn(2)))
+		case x < 65:
+			ru.Exec(fmt.Sprintf("rdx bys pbitmap %d", r.Intn(2)))
+		case x < 72:
+			ru.Exec("rdx bys unchoke")
+		case x < 77:
+			ru.Exec("rdx bys interested")
+		case x < 82:
+			ru.Exec(fmt.Sprintf("rdx bys announce %d", r.Intn(2)))
+		case x < 86:
+			ru.Exec("rdx bys stats")
+		case x < 90:
+			ru.Exec("rdx bys avail")
+		case x < 93:
+			ru.Exec("rdx bys droppeer")
+		case x < 97:
+			ru.Exec(fmt.Sprintf("rdx evict %d", r.Intn(n))) // expiry: TorHave(false)
+		default:
+			h := hp{1 + r.Intn(n-1), []int{-1, 0, 1, 5}[r.Intn(4)]}
+			if !ru.IsComplete(h.i) {
+				ru.Exec(fmt.Sprintf("rdx treq %d %d 1 1", h.i, h.p))
+				held = append(held, h)
+			}
+		}
+		ru.Exec("rdx settle")
+	}
+	// the waits are still live: verifications wake them
+	for i := 1; i < n; i++ {
+		if !ru.IsComplete(i) && r.Chance(60) {
+			ru.Exec(fmt.Sprintf("rdx complete %d", i))
+		}
+	}
+	ru.Exec("rdx settle")
+	for _, ri := range ru.Readers() {
+		if ri.Blocked {
+			ru.Exec(fmt.Sprintf("rdx cancel %d", ri.Rid))
+		}
+	}
+	ru.Exec("rdx settle")
+	for _, ri := range ru.Readers() {
+		if !ri.Closed {
+			ru.Exec(fmt.Sprintf("rdx close %d", ri.Rid))
+		}
+	}
+	for _, h := range held {
+		ru.Exec(fmt.Sprintf("rdx treq %d %d 0 0", h.i, h.p))
+	}
+	ru.Exec("rdx bys conf 0 0 0")
+	ru.Exec("rdx settle")
+	if !ru.Dead() && !Aborted.Load() && !ru.LastSnapEmpty() {
+		ru.violate("leak:after-everybody-left", fmt.Sprintf("Torrent.requested not empty after every consumer withdrew: %v", ru.lastSnap))
+	}
+	ru.Close()
+}
+
+// GenStallCase: everything the consumers wait for has been received (from a corrupting
+// peer) and only awaits its hash check, a web seed is enabled, a peer unchokes us: the loop
+// finds nothing to ask for right now, but must keep polling — the data is about to be
+// thrown away.  Then the honest data arrives and everybody is woken.
+func GenStallCase(r *vhlib.Rand, ru *Runner, rate int) {
+	ps := r.PickInt(16384, 32768)
+	n := 3 + r.Intn(3)
+	total := int64(n*ps - r.PickInt(0, 1, 9000))
+	ru.Exec(fmt.Sprintf("rd new %d %d %d %d s:%d+w", ps, total, r.Intn(1000), rate, total))
+	if ru.S == nil {
+		return
+	}
+	n = ru.S.N
+	ru.Exec(fmt.Sprintf("rdx bys conf %d %d 1", r.Intn(3), r.Intn(2)))
+	type hp struct{ i, p int }
+	var held []hp
+	seen := map[int]bool{}
+	for k := 0; k < 1+r.Intn(2); k++ {
+		h := hp{r.Intn(n), []int{0, 1, 5}[r.Intn(3)]}
+		ru.Exec(fmt.Sprintf("rdx treq %d %d 1 1", h.i, h.p))
+		held = append(held, h)
+		if !seen[h.i] {
+			seen[h.i] = true
+			ru.Exec(fmt.Sprintf("rdx bys phave %d 1", h.i))
+			ru.Exec(fmt.Sprintf("rdx garbage %d w", h.i))
+		}
+	}
+	ru.Exec("rdx bys unchoke")
+	ru.Exec("rdx settle")
+	for i := range seen {
+		for try := 0; try < 3 && !ru.IsComplete(i); try++ {
+			ru.Exec(fmt.Sprintf("rdx complete %d", i))
+		}
+	}
+	ru.Exec("rdx settle")
+	for _, h := range held {
+		ru.Exec(fmt.Sprintf("rdx treq %d %d 0 0", h.i, h.p))
+	}
+	ru.Exec("rdx bys conf 0 0 0")
+	ru.Exec("rdx settle")
+	ru.Close()
+}
